@@ -441,6 +441,7 @@ func mergeSpec(own, used *spec.File) (*spec.File, error) {
 		m.Funcs[k] = v
 	}
 	m.Axioms = append(append([]*spec.InvDecl{}, used.Axioms...), own.Axioms...)
+	m.RefInvs = append(append(append([]*spec.InvDecl{}, own.RefInvs...), used.Invs...), used.RefInvs...)
 	// lemmas proved in the used module are facts here (those with a known finding only in their restricted form,
 	// which is not reproduced here: they are skipped)
 	for _, l := range used.Lemmas {
